@@ -236,7 +236,13 @@ def expand_real(pcfg, pt, limit=None):
     lines = []
     pcfg.print_guess = lines.append
     pcfg.should_exit = False
-    n = pcfg.create_guesses(pt, limit=limit)
+    try:
+        n = pcfg.create_guesses(pt, limit=limit)
+    except Exception as ex:         # the code under test raised while expanding a pre-terminal of a loaded ruleset
+        if len(core.PENDING_RAISES) < 20:
+            core.PENDING_RAISES.append({'error': repr(ex), 'via': 'create_guesses', 'pt': [list(x) for x in pt], 'limit': limit,
+                                        'lines_written': len(lines)})
+        n = -1
     return lines, n
 
 
